@@ -52,6 +52,14 @@ structure Quirks where
   exportParamTruthy : Bool := false
   /-- cirq exporter raises on `Barrier` / `NopGate` -/
   cirqNopRaises : Bool := false
+  /-- call site: the formal bit an actual bit replaces is recovered from the actual's symbol name -/
+  argIndexFromName : Bool := false
+  /-- call site: `e.subs(subs, simultaneus=True)` (misspelt keyword) substitutes sequentially -/
+  subsSequential : Bool := false
+  /-- `bind_function.exp_rename` prefixes one free symbol after the other -/
+  renameSequential : Bool := false
+  /-- `oraclize` renames the callee object when it is called like the oracle -/
+  oraclizeRenames : Bool := false
   deriving Repr, DecidableEq, Inhabited
 
 def Quirks.none : Quirks := {}
@@ -78,6 +86,10 @@ def Quirks.ofList (l : List String) : Quirks :=
     qasmFormalsFromKeys := l.contains "qasmFormalsFromKeys"
     qasmParam2f := l.contains "qasmParam2f"
     exportParamTruthy := l.contains "exportParamTruthy"
-    cirqNopRaises := l.contains "cirqNopRaises" }
+    cirqNopRaises := l.contains "cirqNopRaises"
+    argIndexFromName := l.contains "argIndexFromName"
+    subsSequential := l.contains "subsSequential"
+    renameSequential := l.contains "renameSequential"
+    oraclizeRenames := l.contains "oraclizeRenames" }
 
 end QV
